@@ -40,6 +40,21 @@ def events_of(chunks):
     es += [[2, b""]] * (sum(d.count(b"\n") for d, _ in chunks) + 3)
     return es
 
+def make_burst_case(rng, n_targets, lines):
+    """Every task prints bursts of thousands of short lines on both streams at the same moment: single flushes far
+    larger than any internal batching, competing for the shared connection."""
+    targets = [{"path": "t%02d" % i} for i in range(n_targets)]
+    script, written = {"*": {"quiet": True}}, {}
+    for t in targets:
+        merged, so, se = [], [], []
+        for b in range(3):
+            o = b"".join(b"%s out b%d %05d\n" % (t["path"].encode(), b, i) for i in range(lines))
+            e = b"".join(b"%s err b%d %05d\n" % (t["path"].encode(), b, i) for i in range(lines))
+            merged.append([1, o.hex(), 0]); merged.append([2, e.hex(), 120]); so.append((o, 0)); se.append((e, 120))
+        script["build|%s" % t["path"]] = {"chunks": merged}
+        written[t["path"]] = {"stdout": so, "stderr": se}
+    return {"targets": targets}, script, written
+
 def make_case(rng, n_targets, kind, layers=1):
     targets = [{"path": "t%02d" % i} for i in range(n_targets)]
     if layers == 2:
@@ -149,32 +164,57 @@ def c15_case(ctx, rng, n_targets, kill_at, flt):
         base = outcome(rr, rc0, out0)
         lst = start_listener(rr, flt)
         if kill_at == "before": lst.kill(); lst.communicate()
+        if kill_at == "handshake":
+            # the listener's port accepts (kernel backlog) but the listener never answers: it is stopped, and
+            # killed while the run waits for its filter line
+            lst.send_signal(signal.SIGSTOP)
         env = dict(os.environ); env.update(vlib.GIT_ENV); rr.run_no += 1; rr.clear_traces(); env.update(rr.env())
         p = subprocess.Popen([vlib.BIN_MONORAIL, "-f", os.path.join(rr.repo, "Monorail.json"), "run", "-c", "build"], cwd=rr.repo, env=env,
                              stdout=subprocess.PIPE, stderr=subprocess.PIPE)
         if isinstance(kill_at, float):
             time.sleep(kill_at); lst.kill()
+        if kill_at == "handshake":
+            time.sleep(0.3); lst.kill()
         so, se = p.communicate(timeout=180)
         if lst.poll() is None: lst.kill()
         lst.communicate()
         try: out1 = json.loads(so.decode().strip().splitlines()[-1])
         except Exception: out1 = None
         got = outcome(rr, p.returncode, out1)
+        # a task cancelled because a sibling failed is cut off at a moment that depends on timing alone, listener or not:
+        # stored logs are compared for the tasks that ran to completion (C08's scope)
+        done = set()
+        for cmd, gs in runscen.result_statuses(out0) if out0 else []:
+            for g in gs:
+                for t, (st, code) in g.items():
+                    if st == "success" or (st == "error" and code is not None): done.add(os.path.join(cmd, runscen.thash(t)))
+        for o in (base, got):
+            o["logs"] = {k: v for k, v in o["logs"].items() if os.path.dirname(k) in done}
         same = got == base
         case = {"targets": n_targets, "listener_killed": kill_at, "filters": flt, "script": script}
         ctx.count("kill_%s" % (kill_at if isinstance(kill_at, str) else "mid")); ctx.count("filters_%d" % len(flt))
         diff = {k: (base[k], got[k]) for k in ("rc", "failed", "statuses") if base[k] != got[k]}
         logdiff = [k for k in set(base["logs"]) | set(got["logs"]) if base["logs"].get(k) != got["logs"].get(k)]
+        which = []
+        for k in logdiff:
+            for tp, st in written.items():
+                if runscen.thash(tp) in k:
+                    w = b"".join(d for d, _ in st["stdout" if "stdout" in k else "stderr"])
+                    a = bytes.fromhex(base["logs"].get(k, "")); b = bytes.fromhex(got["logs"].get(k, ""))
+                    which.append({"log": k[-30:], "target": tp, "wrote": len(w), "without_listener": len(a), "with_listener": len(b),
+                                  "without_listener_exact": a == w, "with_listener_exact": b == w,
+                                  "chunks": [[len(d), p] for d, p in st["stdout" if "stdout" in k else "stderr"]],
+                                  "exit": script.get("build|%s" % tp, {}).get("exit", 0)})
         v = ctx.model.call("reader", events_of(written[cfg["targets"][0]["path"]]["stdout"]), True, [0] if kill_at != "never" else [],
                            bytes.fromhex(got["logs"].get(os.path.join("build", runscen.thash(cfg["targets"][0]["path"]), "stdout.zst"), "")), [])
         ctx.record(case, True, bool(v[2]) and same, same, True,
                    sample={"targets": n_targets, "listener_killed": kill_at, "filters": flt, "rc_without": base["rc"], "rc_with": got["rc"]},
-                   detail={"differences": diff, "log_differences": logdiff[:5], "stderr": se.decode("utf-8", "replace")[-300:]})
+                   detail={"differences": diff, "log_differences": logdiff[:5], "which_side_differs_from_what_was_written": which[:5], "stderr": se.decode("utf-8", "replace")[-300:]})
     finally:
         rr.close()
 
-def c20_case(ctx, rng, n_targets, flt, crlf=False):
-    cfg, script, written = make_case(rng, n_targets, "text")
+def c20_case(ctx, rng, n_targets, flt, crlf=False, burst=0):
+    cfg, script, written = make_burst_case(rng, n_targets, burst) if burst else make_case(rng, n_targets, "text")
     if crlf:
         t0 = cfg["targets"][0]["path"]
         script["build|%s" % t0]["chunks"].append([1, b"dos line\r\n".hex(), 0]); written[t0]["stdout"].append((b"dos line\r\n", 0))
@@ -182,11 +222,27 @@ def c20_case(ctx, rng, n_targets, flt, crlf=False):
     try:
         rr.script = script; rr.write_script()
         lst = start_listener(rr, flt)
+        import threading
+        got = bytearray()
+        def pump():
+            while True:
+                b = lst.stdout.read1(65536) if hasattr(lst.stdout, "read1") else lst.stdout.read(65536)
+                if not b: break
+                got.extend(b)
+        th = threading.Thread(target=pump, daemon=True); th.start()
         rc, out, err, raw = rr.run("-c", "build", timeout=180)
-        time.sleep(0.3); lst.terminate()
-        try: lo, le = lst.communicate(timeout=10)
-        except subprocess.TimeoutExpired: lst.kill(); lo, le = lst.communicate()
-        case = {"targets": n_targets, "filters": flt, "crlf": crlf, "script": script}
+        # the listener prints line by line; wait until it has drained what the run sent (no growth for 1 s, at most 90 s)
+        last, quiet, t0 = -1, 0, time.time()
+        while quiet < 5 and time.time() - t0 < 90:
+            time.sleep(0.2)
+            if len(got) == last: quiet += 1
+            else: quiet, last = 0, len(got)
+        lst.terminate()
+        try: lst.wait(timeout=10)
+        except subprocess.TimeoutExpired: lst.kill()
+        th.join(timeout=5)
+        lo = bytes(got)
+        case = {"targets": n_targets, "filters": flt, "crlf": crlf, "burst": burst, "script": script if not burst else "burst"}
         if out is None:
             ctx.record(case, True, False, False, True, detail={"what": "run failed", "rc": rc, "err": err}); return
         logs = stored_logs(rr, out)
@@ -228,18 +284,20 @@ def run(ctx, scale, focus):
         plan = [(4, "mixed"), (24, "text"), (8, "mixed"), (2, "mixed"), (12, "mixed")] if ctx.quick() else [(n, k) for n in (1, 2, 4, 8, 16, 24) for k in ("text", "mixed")] * 6
         for n, kind in plan * scale: c08_case(ctx, random.Random(rng.getrandbits(32)), n, kind)
     elif focus == "C15":
-        plan = [("never", ["--stdout", "--stderr"]), (0.25, ["--stdout", "--stderr"]), ("before", ["--stdout"]), (0.7, ["--stderr", "-t", "t00"]), (0.05, ["--stdout", "--stderr"])]
+        plan = [("never", ["--stdout", "--stderr"]), (0.25, ["--stdout", "--stderr"]), ("before", ["--stdout"]), (0.7, ["--stderr", "-t", "t00"]), (0.05, ["--stdout", "--stderr"]),
+                ("handshake", ["--stdout", "--stderr"])]
         if not ctx.quick(): plan = plan * 10
         for kill_at, flt in plan * scale: c15_case(ctx, random.Random(rng.getrandbits(32)), rng.choice([4, 6]), kill_at, flt)
     else:
-        plan = [(6, ["--stdout", "--stderr"], False), (10, ["--stdout"], False), (6, ["--stdout", "--stderr", "-t", "t00", "t03"], False), (8, ["--stderr"], False), (3, ["--stdout", "--stderr"], True)]
+        plan = [(6, ["--stdout", "--stderr"], False, 0), (10, ["--stdout"], False, 0), (6, ["--stdout", "--stderr", "-t", "t00", "t03"], False, 0), (8, ["--stderr"], False, 0),
+                (3, ["--stdout", "--stderr"], True, 0), (6, ["--stdout", "--stderr"], False, 3000)]
         if not ctx.quick(): plan = plan * 10
-        for n, flt, crlf in plan * scale: c20_case(ctx, random.Random(rng.getrandbits(32)), n, flt, crlf)
+        for n, flt, crlf, burst in plan * scale: c20_case(ctx, random.Random(rng.getrandbits(32)), n, flt, crlf, burst)
 
 def replay(ctx, case, focus):
     c = case.get("case", case)
     rng = random.Random(ctx.seed)
     if focus == "C08": c08_case(ctx, rng, c.get("targets", 4), c.get("kind", "mixed"))
     elif focus == "C15": c15_case(ctx, rng, c.get("targets", 4), c.get("listener_killed", 0.25), c.get("filters", ["--stdout", "--stderr"]))
-    else: c20_case(ctx, rng, c.get("targets", 4), c.get("filters", ["--stdout", "--stderr"]), c.get("crlf", False))
+    else: c20_case(ctx, rng, c.get("targets", 4), c.get("filters", ["--stdout", "--stderr"]), c.get("crlf", False), c.get("burst", 0))
     return {"spec_failures": [d for _, d in ctx.spec_failures][:3], "disagreements": [d for _, d in ctx.tie_breaks][:3]}
